@@ -56,6 +56,7 @@ class Ctx(object):
         self.checks = 0
         self.solver_s = 0.0
         self.notes = []
+        self.hints_used = 0
 
     # -- assumptions -------------------------------------------------------
     def add(self, *facts):
@@ -122,7 +123,18 @@ class Ctx(object):
         return choice
 
     # -- obligations -------------------------------------------------------
-    def prove(self, name, formula, detail=""):
+    def prove_hint(self, formula):
+        """ghost hint: try to prove an intermediate fact; when it is proved it is added to the path's
+        facts (a proof step, never an assumption); when it is not, it is simply dropped."""
+        n = len(self.obligations)
+        ok = self.prove("hint", formula, hint=True)
+        del self.obligations[n:]
+        if ok:
+            self.add(formula)
+            self.hints_used += 1
+        return ok
+
+    def prove(self, name, formula, detail="", hint=False):
         """Discharge `formula` under everything assumed so far on this path."""
         if isinstance(formula, SymBool):
             formula = formula.t
@@ -136,15 +148,31 @@ class Ctx(object):
             self.obligations.append(dict(name=name, status="proved", seconds=0.0, backend="simplify", detail=detail))
             return True
         t0 = time.time()
-        s = z3.Solver()
-        s.set("timeout", self.prove_timeout_ms)
-        s.add(self.solver.assertions())
-        s.add(z3.Not(f))
-        r = s.check()
+        # portfolio: default z3 (MBQI + E-matching), then E-matching only, then a reseeded default run
+        variants = (("z3", None), ("z3-ematching", {"mbqi": False, "auto_config": False}), ("z3-seed7", {"random_seed": 7, "smt.random_seed": 7}))
+        budget = [self.prove_timeout_ms // 2, self.prove_timeout_ms // 4, self.prove_timeout_ms // 4]
+        r = z3.unknown
+        variant = "z3"
+        for (variant, opts), ms in zip(variants, budget):
+            s = z3.SimpleSolver() if opts and "mbqi" in opts else z3.Solver()
+            s.set("timeout", max(int(ms), 500))
+            if opts:
+                for k, v in opts.items():
+                    try:
+                        s.set(k, v)
+                    except z3.Z3Exception:
+                        pass
+            s.add(self.solver.assertions())
+            s.add(z3.Not(f))
+            r = s.check()
+            if r != z3.unknown:
+                break
+            if hint:
+                break
         dt = time.time() - t0
         self.solver_s += dt
         self.checks += 1
-        ob = dict(name=name, seconds=round(dt, 4), backend="z3-%s" % z3.get_version_string(), detail=detail)
+        ob = dict(name=name, seconds=round(dt, 4), backend="%s-%s" % (variant, z3.get_version_string()), detail=detail)
         if r == z3.unsat:
             ob["status"] = "proved"
         else:
